@@ -5,18 +5,18 @@ from vlib.diff import Case, differential
 
 LEVEL = "proof"
 # C functions this check's models mirror (source-text fingerprints are recorded in the evidence, see translate/funchash.py)
-MODELLED_FUNCS = {'src/utils/iwhmap.c': ['iwhmap_put', 'iwhmap_get', 'iwhmap_remove', 'iwhmap_clear', '_lru_entry_update', '_rehash'], 'src/utils/iwarr.c': ['iwulist_insert', 'iwulist_remove', 'iwulist_clone', 'iwlist_unshift', 'iwlist_clone', 'iwarr_sorted_insert', 'iwarr_sorted_remove'], 'src/utils/iwavl.h': ['iwavl_insert', 'iwavl_lookup_bounds'], 'src/utils/iwavl.c': ['iwavl_remove'], 'src/utils/iwrb.c': ['iwrb_put', 'iwrb_back', 'iwrb_peek', 'iwrb_iter_init', 'iwrb_iter_prev'], 'src/utils/iwxstr.c': ['iwxstr_cat', 'iwxstr_unshift', 'iwxstr_shift', 'iwxstr_pop', 'iwxstr_insert', 'iwxstr_printf_va', 'iwxstr_insert_vaprintf'], 'src/utils/iwpool.c': ['iwpool_alloc', 'iwpool_split_string', 'iwpool_printf_split', 'iwpool_user_data_set', '_parent_remove_child', 'iwpool_destroy']}
+MODELLED_FUNCS = {'src/utils/iwhmap.c': ['iwhmap_put', 'iwhmap_get', 'iwhmap_remove', 'iwhmap_clear', '_lru_entry_update', '_rehash'], 'src/utils/iwarr.c': ['iwulist_insert', 'iwulist_remove', 'iwulist_clone', 'iwlist_unshift', 'iwlist_clone', 'iwarr_sorted_insert', 'iwarr_sorted_remove'], 'src/utils/iwavl.h': ['iwavl_insert', 'iwavl_lookup_bounds'], 'src/utils/iwavl.c': ['iwavl_remove'], 'src/utils/iwrb.c': ['iwrb_put', 'iwrb_back', 'iwrb_peek', 'iwrb_iter_init', 'iwrb_iter_prev'], 'src/utils/iwxstr.c': ['iwxstr_cat', 'iwxstr_unshift', 'iwxstr_shift', 'iwxstr_pop', 'iwxstr_insert', 'iwxstr_printf_va', 'iwxstr_insert_vaprintf'], 'src/utils/iwpool.c': ['iwpool_alloc', 'iwpool_split_string', 'iwpool_printf_split', 'iwpool_user_data_set', '_parent_remove_child', 'iwpool_destroy', 'iwpool_ref', 'iwpool_create_attach']}
 MANIFEST = dict(
     level="proof",
     text=("Lean 4 theorems over executable mechanism models of iwhmap (buckets, step growth, rehash up/down, LRU list and eviction "
           "loop), iwulist/iwlist (window arithmetic, growth/shrink, bounds-instrumented memmove), the sorted-array binary search, the "
           "AVL tree (rotation cases of insert and remove, lookup_bounds), the ring buffer (put/back/clear with the iterator loop), iwxstr "
           "statement by statement (buffer cells, memmove, terminator stores, the 1024-byte vsnprintf buffer switch of the print functions) and "
-          "iwpool (bump allocation, the split_string scan with its trimming loops, child pools and user data): each refines its plain reference "
+          "iwpool (bump allocation, the split_string scan with its trimming loops, child pools with their own reference counts, the orphans a destroyed parent leaves behind, user data): each refines its plain reference "
           "(association list + recency list, List, sorted permutation, BST set, two-list ring, byte list, List.splitOnP) for all call sequences, "
           "with bucket/array/buffer bounds as invariants, and one global theorem freed_exactly_once (multiset of elements given to the free "
           "callbacks = multiset of owned elements inserted and not handed back, over any history ending in destroy, for hash map, iwlist, xstr "
-          "and pool user data, child pools); the models are tied to the code by differential runs of "
+          "and pool user data, child pools incl. references on children and orphans); the models are tied to the code by differential runs of "
           "random call sequences (colliding hashes, eviction, threshold crossings) against the compiled Lean definitions, an independent "
           "python reference as oracle, a logged free callback, a heap balance at destroy and ASan"),
     note=("trusted: Lean kernel, translator, harness/generator, gcc+ASan/UBSan; modelled not verified: the C control flow of the functions "
@@ -38,6 +38,8 @@ THEOREMS = ["IwModel.C18." + n for n in (
     "xstr_mem_refines", "xstr_mem_run", "xstr_printf_exact", "xstr_wrap_clone_spec",
     "pool_split_reference", "pool_trim_rule", "pool_printf_exact", "pool_children_ownership",
     "hmap_freed_exactly_once", "plist_freed_exactly_once", "freed_exactly_once",
+    # round 4 (c18poolref): children with their own reference counts, orphans of a destroyed parent
+    "pool_history_balance", "poLedger_isSome_iff", "pool_orphan_witness",
 )]
 
 M32 = 0xffffffff
@@ -791,20 +793,52 @@ def py_split(hay, chars, ws):
     return toks
 
 
+class PoCase(Case):
+    """a pool case with the situations its history went through (for the evidence histogram)"""
+    tags = ()
+
+
 def case_po(r, big=False):
     ops, exp = [], []
     if r.random() < 0.15:
         ops.append("po newempty"), exp.append(("stat",))
     else:
         ops.append("po new %d" % r.choice([0, 1, 8, 16, 17, 64, 100, 1000])), exp.append(("stat",))
+    # reference for ownership (written from the documented contract of iwpool_ref / iwpool_destroy, independent of the Lean model):
+    # every pool has a reference count; iwpool_destroy drops one reference and only the drop of the last one frees the pool
+    # (its user data goes to the free function exactly then); a freed parent lets go of its children by dropping ONE reference
+    # on each: a child somebody else still references lives on without parent and keeps its user data until its last holder
+    # destroys it.
     ud = [None]
-    kids = {}
+    kids = {}          # handle -> [refs, user data id]   (attached while the main pool lives, orphans afterwards)
     uid = [0]
     nk = [0]
     refs = [1]
+    tags = set()
+    fu = lambda x: "u%d" % x if x else "-"
+
+    def child_op(op, c, last_family=False):
+        """one call through child handle c; returns (op line, expected line)"""
+        k = kids[c]
+        if op == "calloc2":
+            return "po calloc2 %d %d" % (c, r.choice([1, 8, 30, 200])), ("pfx", "calloc2 ")
+        if op == "cud":
+            uid[0] += 1
+            old, k[1] = k[1], uid[0]
+            return "po cud %d %d" % (c, uid[0]), ("w", "cud free=" + fu(old))
+        if op == "cref":
+            k[0] += 1
+            return "po cref %d" % c, ("w", "cref %d" % k[0])
+        k[0] -= 1                                   # cdestroy
+        if k[0] > 0:
+            tags.add("cdestroy-keeps")
+            return "po cdestroy %d" % c, ("w", "cdestroy 0 free=-")
+        del kids[c]
+        return "po cdestroy %d" % c, ("w", "cdestroy 1 free=" + fu(k[1]) + (" leak=0" if last_family and not kids else ""))
+
     for i in range(r.choice([8, 30, 80]) if not big else 600):
         op = r.choice(["alloc", "alloc", "calloc", "strdup", "strdup", "strndup", "printf", "split", "split", "psplit", "copyarr",
-                       "child", "calloc2", "cud", "cdestroy", "ud", "udget", "uddetach"])
+                       "child", "child", "calloc2", "cud", "cud", "cdestroy", "cdestroy", "cref", "ud", "udget", "uddetach", "ref", "destroy"])
         if op in ("alloc", "calloc"):
             n = r.choice([1, 7, 8, 9, 16, 24, 100, r.randrange(1, 300), 5000 if r.random() < 0.1 else 3])
             ops.append("po %s %d" % (op, n)), exp.append(("alloc", op, n, None))
@@ -837,35 +871,80 @@ def case_po(r, big=False):
             if nk[0] >= 16:
                 continue
             ops.append("po child %s" % r.choice(["e", "0", "16", "64"])), exp.append(("w", "child %d" % nk[0]))
-            kids[nk[0]] = None
+            kids[nk[0]] = [1, None]
             nk[0] += 1
-        elif op in ("calloc2", "cud", "cdestroy"):
+        elif op in ("calloc2", "cud", "cdestroy", "cref"):
             if not kids:
                 continue
             c = r.choice(list(kids))
-            if op == "calloc2":
-                ops.append("po calloc2 %d %d" % (c, r.choice([1, 8, 30, 200]))), exp.append(("pfx", "calloc2 "))
-            elif op == "cud":
-                uid[0] += 1
-                ops.append("po cud %d %d" % (c, uid[0])), exp.append(("w", "cud free=" + ("u%d" % kids[c] if kids[c] else "-")))
-                kids[c] = uid[0]
-            else:
-                ops.append("po cdestroy %d" % c), exp.append(("w", "cdestroy 1 free=" + ("u%d" % kids[c] if kids[c] else "-")))
-                del kids[c]
+            if op == "cref" and kids[c][0] >= 4:
+                op = "cdestroy"
+            o, e = child_op(op, c)
+            ops.append(o), exp.append(e)
+            if op == "cdestroy" and r.random() < 0.1:       # a handle whose pool is gone (or still there: then it is one more call)
+                if c in kids:
+                    o, e = child_op("cdestroy", c)
+                    ops.append(o), exp.append(e)
+                else:
+                    ops.append("po %s %d%s" % (("cdestroy", c, "") if r.random() < 0.5 else ("cud", c, " 99"))), exp.append(("pfx2", "nochild"))
         elif op == "ud":
             uid[0] += 1
-            ops.append("po ud %d" % uid[0]), exp.append(("w", "ud free=" + ("u%d" % ud[0] if ud[0] else "-")))
+            ops.append("po ud %d" % uid[0]), exp.append(("w", "ud free=" + fu(ud[0])))
             ud[0] = uid[0]
         elif op == "udget":
             ops.append("po udget"), exp.append(("w", "udget %d" % (ud[0] or 0)))
-        else:
+        elif op == "uddetach":
             ops.append("po uddetach"), exp.append(("w", "uddetach %d" % (ud[0] or 0)))
             ud[0] = None
+        elif op == "ref":                                    # reference pairs in the middle of a history
+            if refs[0] >= 3:
+                continue
+            refs[0] += 1
+            ops.append("po ref"), exp.append(("w", "ref %d" % refs[0]))
+        elif refs[0] > 1:                                    # "destroy" that only drops a reference
+            refs[0] -= 1
+            ops.append("po destroy"), exp.append(("w", "destroy 0 free=-"))
+            tags.add("mid-unref")
     if r.random() < 0.2:
-        ops.append("po ref"), exp.append(("w", "ref 2"))
+        refs[0] += 1
+        ops.append("po ref"), exp.append(("w", "ref %d" % refs[0]))
+    while refs[0] > 1:
+        refs[0] -= 1
         ops.append("po destroy"), exp.append(("w", "destroy 0 free=-"))
+    # the parent goes while 0..3 (more) children are referenced by somebody else
+    for c in r.sample(list(kids), min(len(kids), r.choice([0, 0, 1, 1, 2, 3]))):
+        for _ in range(r.choice([1, 1, 2])):
+            o, e = child_op("cref", c)
+            ops.append(o), exp.append(e)
+    freed = [k[1] for k in kids.values() if k[0] == 1] + [ud[0]]
+    for c in list(kids):
+        kids[c][0] -= 1
+        if kids[c][0] == 0:
+            del kids[c]
     ops.append("po destroy")
-    exp.append(("destroy", sorted(["u%d" % x for x in list(kids.values()) + [ud[0]] if x])))
+    exp.append(("destroy", sorted(["u%d" % x for x in freed if x]), "orphans=%d" % len(kids) if kids else "leak=0"))
+    norph = len(kids)
+    if norph:
+        tags.add("orph%d" % min(norph, 4))
+    # the orphans are used and destroyed by their holders; the main pool is gone
+    while kids:
+        x = r.random()
+        c = r.choice(list(kids))
+        if x < 0.08:
+            ops.append("po " + r.choice(["udget", "alloc 8", "ud 77", "ref", "destroy", "child 16"])), exp.append(("w", "no-pool"))
+        elif x < 0.16 and nk[0] > len(kids):
+            dead = [h for h in range(nk[0]) if h not in kids]
+            ops.append("po %s %d" % (r.choice(["cdestroy", "cref"]), r.choice(dead))), exp.append(("pfx2", "nochild"))
+        else:
+            op = r.choice(["calloc2", "cud", "cud", "cref", "cdestroy", "cdestroy", "cdestroy"])
+            if op == "cref" and kids[c][0] >= 3:
+                op = "cdestroy"
+            o, e = child_op(op, c, last_family=True)
+            ops.append(o), exp.append(e)
+            if op == "cdestroy" and c not in kids:
+                tags.add("orphan-freed-ud" if "free=u" in e[1] else "orphan-freed")
+    if norph and r.random() < 0.3:
+        ops.append("po cdestroy 0"), exp.append(("w", "no-pool"))
 
     def oracle(out, exp=exp, ops=ops):
         regions = {}
@@ -878,6 +957,8 @@ def case_po(r, big=False):
                 ok = line.strip() == e[1]
             elif e[0] == "pfx":
                 ok = line.startswith(e[1]) and "-1:" not in line
+            elif e[0] == "pfx2":
+                ok = len(w) == 2 and w[1] == e[1]
             elif e[0] == "alloc":
                 u, o = map(int, w[1].split(":"))
                 ok = w[0] == e[1] and u >= 0 and o % 8 == 0
@@ -892,11 +973,15 @@ def case_po(r, big=False):
                 m = re.search(r"usiz=(\d+) asiz=(\d+)", line)
                 ok = ok and int(m.group(1)) <= int(m.group(2)) and o + e[2] <= int(m.group(2))
             else:
-                ok = w[:2] == ["destroy", "1"] and _free(line) == e[1] and w[-1] == "leak=0"
+                ok = w[:2] == ["destroy", "1"] and _free(line) == e[1] and w[-1] == e[2] and len(w) == 4
             if not ok:
                 return "iwpool differs from the reference at op %d `%s`: got `%s`, reference %s" % (i, ops[i][:160], line[:200], str(e)[:200])
+        if len(out) != len(exp):
+            return "iwpool: %d result lines for %d calls" % (len(out), len(exp))
         return None
-    return Case("po", ops, oracle)
+    c = PoCase("po-orph%d" % min(norph, 4) if norph else "po", ops, oracle)
+    c.tags = sorted(tags)
+    return c
 
 
 GENS = [(case_hm, 6), (lambda r, big=False: case_list(r, "ul", big), 3), (lambda r, big=False: case_list(r, "pl", big), 3),
@@ -934,6 +1019,8 @@ def explore(ctx, h, drv, n, label, big=False):
         ctx.hist("ops:" + c.kind.split("-")[0], len(c.ops))
         if c.kind.startswith(("rb", "xs", "po")):
             ctx.hist("kind:" + c.kind)
+        for t in getattr(c, "tags", ()):
+            ctx.hist("po:" + t)
     probs = differential(ctx, [h], [drv, "c18"] if drv else None, cases, timeout=900)
     for c in cases:
         for line in (c.impl or []):
